@@ -17,13 +17,37 @@ Placement kinds (DESIGN section 4, C03):
             half of them scaled by 8 ('whole': every position, length and origin a whole number, so that the positions
             can be handed over integer-typed and atomman stores them as integers)
 
+  near      (cross-pollination round) 2-6 atoms in pairs built around a threshold of the property, each 1e-12 .. 5e-3
+            (relative) away from it: a partner at distance cutoff*(1 +- d) in a random direction (wrapped through a
+            periodic face when it leaves the cell), a partner at distance cutoff*d (almost coincident atoms), an atom
+            at relative coordinate d or 1 - d (almost on a face) with or without a partner across that face; half of
+            the cells get tilts of +-d * length (almost orthogonal) and / or a second length (1 + d) times the first
+            (almost equal); one system so holds separations over 8+ decades.  The oracle's exempt band stays
+            1e-9 * cutoff: everything from 2e-9 outward is judged.
+
+Exact symmetry images of the cell (cell['sym'], absent = none; about 30 % of all systems, every kind): after everything
+gens.cell_vects does the cell is acted on - exactly, by indexing and sign changes only - by
+   m  one of the 48 signed permutations M of the Cartesian axes (vects -> vects . M^T: rotations by exactly 90 / 120 /
+      180 degrees, mirrors, the inversion; numbers 0..7 are the diagonal ones),
+   p  one of the 6 renamings of the cell vectors (rows),
+   s  one of the 8 reversals of cell vectors (a reversed vector moves the origin to its tip: the same region of space),
+so that exact zeros survive where a generic rotation leaves none: lower-triangular cells with negative diagonal
+entries (the LAMMPS form turned by 180 degrees / mirrored), upper-triangular cells (vectors and axes both in reverse
+order), axis-permuted orthogonal cells, left-handed cells.  The generic kinds are CONSTRUCTED in the final cell; the
+dyadic kind is transformed afterwards (positions permuted / negated: exact).
+
 Input forms (case['form'], absent = everything plain): how the numbers are handed to atomman.
   pos     array (float64, C-contiguous, writeable) / readonly (setflags(write=False)) / frombuffer (numpy.frombuffer,
           read-only) / memmap (numpy.load(mmap_mode='r'), read-only) / fortran / strided (non-contiguous view into a
           NaN-filled larger array) / list / tuple; dyadic systems also float32 (exact: eighths below 2^9) and, when
           whole, intarray / intlist / inttuple (stored by Atoms as int64)
-  cutoff  float / npfloat (numpy.float64); a whole cutoff also int / npint
-  sizes   int / npint64 / npint32
+          narrow (cross-pollination round): an array of the dtype number form['narrow'] among those that hold the
+          positions exactly (narrow_pos_dtypes): big-endian float64 always; float16 / big-endian float32 / float16
+          for small dyadic values; int8 / uint8 / int16 / uint16 / int32 / uint32 / uint64 and big-endian integers
+          / bool for whole numbers inside the limits of the dtype
+  cutoff  float / npfloat (numpy.float64); a whole cutoff also int / npint; narrow: numpy.longdouble always, float32 /
+          float16 / int8 .. uint64 numpy scalars where they hold the value exactly
+  sizes   int / npint64 / npint32 / npint8 / npuint8 / npint16 / npuint16 / npuint32 / npuint64
   pbc     list / tuple / nparray (of bool)
 
 Length scale (cell['scale'], absent = 1): the whole geometric input of a system - cell vectors, origin, positions and
@@ -44,7 +68,7 @@ MAXBINS = 30000          # cap on the number of cutoff-sized bins of the padded 
 
 CELLS = gens.cells(rotated=True, lefthanded=False, origin=True, lmin=1.0, lmax=12.0, maxtilt=1.5, families=True)
 KINDS = st.sampled_from(['sparse'] * 3 + ['targeted'] * 5 + ['faces'] * 2 + ['binedge'] * 3 + ['dense'] * 4 + ['cluster'] * 2
-                        + ['dyadic'] * 3)
+                        + ['dyadic'] * 3 + ['near'] * 3)
 _unit = st.integers(0, 10000).map(lambda k: k / 10000.0)      # not st.floats: those return exactly 0.0/1.0 very often
 _sym = nice(-1.0, 1.0, 4)
 _facecoord = st.one_of(st.sampled_from([0.0, 1.0, 0.0, 1.0, 0.5]), _unit)
@@ -58,7 +82,7 @@ _i02 = st.integers(0, 2)
 _i14 = st.integers(1, 4)
 _i12 = st.integers(1, 2)
 FRAC = {'sparse': nice(0.05, 0.45, 4), 'targeted': nice(0.15, 0.45, 4), 'faces': nice(0.05, 1.6, 4),
-        'binedge': nice(0.1, 0.8, 4), 'dense': nice(0.2, 1.6, 4), 'cluster': nice(0.1, 0.6, 4)}
+        'binedge': nice(0.1, 0.8, 4), 'dense': nice(0.2, 1.6, 4), 'cluster': nice(0.1, 0.6, 4), 'near': nice(0.15, 0.8, 4)}
 QUADS = [((1, 0, 0), 1), ((3, 4, 0), 5), ((1, 2, 2), 3), ((2, 3, 6), 7), ((4, 4, 7), 9), ((1, 4, 8), 9), ((2, 6, 9), 11),
          ((6, 6, 7), 11)]
 _quad = st.sampled_from(QUADS)
@@ -67,12 +91,21 @@ _signs = st.lists(st.sampled_from([1, -1]), min_size=3, max_size=3)
 _len4 = st.integers(4, 48).map(lambda k: k / 4.0)
 _org4 = st.one_of(st.just(0.0), st.integers(-64, 64).map(lambda k: k / 4.0))
 _above = st.sampled_from([0.0, 0.0, 2.0 ** -20, -2.0 ** -20])
-POSFORMS = st.sampled_from(['array'] * 7 + ['readonly'] * 2 + ['frombuffer', 'memmap', 'fortran', 'strided', 'list', 'tuple'])
-DYADIC_POSFORMS = st.sampled_from(['array'] * 3 + ['float32'] + ['readonly', 'frombuffer', 'list', 'strided'])
-WHOLE_POSFORMS = st.sampled_from(['intarray'] * 3 + ['intlist'] * 2 + ['inttuple', 'float32', 'readonly', 'list', 'strided'] + ['array'] * 2)
+POSFORMS = st.sampled_from(['array'] * 7 + ['readonly'] * 2 + ['frombuffer', 'memmap', 'fortran', 'strided', 'list', 'tuple', 'narrow', 'narrow'])
+DYADIC_POSFORMS = st.sampled_from(['array'] * 3 + ['float32'] + ['readonly', 'frombuffer', 'list', 'strided'] + ['narrow'] * 5)
+WHOLE_POSFORMS = st.sampled_from(['intarray'] * 3 + ['intlist'] * 2 + ['inttuple', 'float32', 'readonly', 'list', 'strided'] + ['array'] * 2
+                                 + ['narrow'] * 8)
 CUTFORMS = st.sampled_from(['float'] * 3 + ['npfloat'])
-WHOLE_CUTFORMS = st.sampled_from(['float', 'npfloat', 'int', 'int', 'npint'])
-SIZEFORMS = st.sampled_from(['int'] * 3 + ['npint64', 'npint32'])
+DYADIC_CUTFORMS = st.sampled_from(['float'] * 3 + ['npfloat'] + ['narrow'] * 2)
+WHOLE_CUTFORMS = st.sampled_from(['float', 'npfloat', 'int', 'int', 'npint', 'narrow', 'narrow', 'narrow'])
+SIZEFORMS = st.sampled_from(['int'] * 6 + ['npint64', 'npint32'] * 2 + ['npint8', 'npuint8', 'npint16', 'npuint16', 'npuint32', 'npuint64'])
+GENERIC_CUTFORMS = st.sampled_from(['float'] * 6 + ['npfloat'] * 2 + ['narrow'])
+_narrow = st.integers(0, 59)
+_TINYVALS = [m * 10.0 ** -k for k in range(3, 13) for m in (1.0, 2.0, 5.0)]          # 1e-12 .. 5e-3
+_tiny = st.sampled_from(_TINYVALS)
+_tinysigned = st.sampled_from([0.0] * 6 + _TINYVALS + [-x for x in _TINYVALS])
+_nearmode = st.sampled_from(['cut', 'cut', 'cut', 'coin', 'coin', 'face', 'facepair', 'facepair'])
+_i13 = st.integers(1, 3)
 PBCFORMS = st.sampled_from(['list'] * 2 + ['tuple', 'nparray'])
 # overall length scale: decimal exponents for the generic kinds, binary exponents for the dyadic kind
 _SCALE10 = st.sampled_from([0] * 10 + [-10] * 4 + [-12, -11, -9, -8, -6, -3, -1, 1, 3, 6])
@@ -80,6 +113,166 @@ _SCALE2 = st.sampled_from([0] * 9 + [-33] * 4 + [-40, -36, -30, -27, -20, -10, -
 _SCALE2_WHOLE = st.sampled_from([0] * 5 + [3, 10, 20, 20, 30])
 NATOMS = {'sparse': st.sampled_from([1, 2, 2, 3, 3, 4, 4, 5, 6]), 'dyadic': st.integers(2, 6), 'targeted': st.integers(2, 4), 'faces': st.integers(1, 8),
           'binedge': st.integers(2, 8), 'cluster': st.integers(40, 70)}
+
+# ----------------------------------------------------------------------------- narrow / unsigned / big-endian storage dtypes
+NARROW_POS = ['>f8', 'float16', '>f2', '>f4', 'int8', 'uint8', 'int16', '>i2', 'uint16', '>u2', 'int32', '>i4', 'uint32', '>u4',
+              'uint64', '>i8', '>u8', 'bool']
+NARROW_CUT = ['longdouble', 'float32', 'float16', 'int8', 'uint8', 'int16', 'uint16', 'int32', 'uint32', 'uint64']
+
+
+def _holds_exactly(values, dt):
+    """does the dtype hold every number of the float64 array exactly?"""
+    dt = np.dtype(dt)
+    if not np.all(np.isfinite(values)):
+        return False
+    if dt.kind == 'b':
+        return bool(np.all((values == 0.0) | (values == 1.0)))
+    if dt.kind in 'iu':
+        info = np.iinfo(dt)
+        return bool(np.all(values == np.rint(values)) and values.min() >= info.min and values.max() <= info.max
+                    and np.abs(values).max() < 2.0 ** 53)
+    with np.errstate(over='ignore', under='ignore', invalid='ignore'):
+        a = values.astype(dt)
+        return bool(np.all(np.isfinite(a)) and np.array_equal(a.astype(np.float64), values))
+
+
+def narrow_pos_dtypes(pos0):
+    """the dtypes of NARROW_POS that hold the positions exactly ('>f8' always does); narrow integers first where
+    there are any"""
+    pos0 = np.asarray(pos0, dtype=np.float64)
+    return [dt for dt in NARROW_POS if _holds_exactly(pos0, dt)]
+
+
+def narrow_pos_dtype(pos0, k):
+    cand = narrow_pos_dtypes(pos0)
+    k = int(k)
+    if len(cand) > 1 and k % 6:
+        cand = cand[1:]                   # where a narrower dtype holds the numbers it is preferred (5 of 6) to big-endian float64
+    return cand[(k // 6) % len(cand)]
+
+
+def narrow_cut_types(cutoff):
+    v = np.array([float(cutoff)])
+    return ['longdouble'] + [t for t in NARROW_CUT[1:] if _holds_exactly(v, t)]
+
+
+def narrow_cut_type(cutoff, k):
+    cand = narrow_cut_types(cutoff)
+    return cand[int(k) % len(cand)]
+
+
+# ----------------------------------------------------------------------------- exact symmetry images of a cell
+SIGNS8 = [(a, b, c) for a in (1.0, -1.0) for b in (1.0, -1.0) for c in (1.0, -1.0)]
+PERMS6 = [(0, 1, 2), (1, 0, 2), (0, 2, 1), (2, 1, 0), (1, 2, 0), (2, 0, 1)]
+
+
+def sym_parts(c):
+    """(q, t, perm, signs) of c['sym'] or None: Cartesian axis j of the image is axis q[j] of the original times t[j];
+    cell vector k of the image is vector perm[k] of the original times signs[k]"""
+    sym = c.get('sym')
+    if not sym:
+        return None
+    m, p, k = int(sym['m']) % 48, int(sym['p']) % 6, int(sym['s']) % 8
+    if not (m or p or k):
+        return None
+    return PERMS6[m // 8], np.array(SIGNS8[m % 8]), PERMS6[p], np.array(SIGNS8[k])
+
+
+def sym_cartesian(c, x):
+    """the Cartesian part of the image (axes permuted and reversed) of points / vectors x (..., 3): exact"""
+    parts = sym_parts(c)
+    x = np.asarray(x, dtype=float)
+    if parts is None:
+        return x
+    q, t = parts[0], parts[1]
+    return x[..., list(q)] * t + 0.0
+
+
+def cell_vects3(c):
+    """gens.cell_vects followed by the exact symmetry image c['sym']"""
+    V = gens.cell_vects(c)
+    parts = sym_parts(c)
+    if parts is None:
+        return V
+    V = sym_cartesian(c, V)[list(parts[2])]
+    return V * parts[3][:, None] + 0.0
+
+
+def cell_origin3(c):
+    """gens.cell_origin under c['sym']: a reversed cell vector moves the origin to its tip"""
+    o = gens.cell_origin(c)
+    parts = sym_parts(c)
+    if parts is None:
+        return o
+    o = sym_cartesian(c, o)
+    V = sym_cartesian(c, gens.cell_vects(c))[list(parts[2])]
+    for k in range(3):
+        if parts[3][k] < 0:
+            o = o + V[k]
+    return o + 0.0
+
+
+def sym_labels(c, V):
+    labs = set()
+    if sym_parts(c) is not None:
+        labs.add('sym')
+        low = V[1, 0] != 0.0 or V[2, 0] != 0.0 or V[2, 1] != 0.0
+        up = V[0, 1] != 0.0 or V[0, 2] != 0.0 or V[1, 2] != 0.0
+        if not up:
+            labs.add('sym_negdiag' if (V[0, 0] < 0 or V[1, 1] < 0 or V[2, 2] < 0) else 'sym_lowertri')
+        elif not low:
+            labs.add('sym_upper')
+        else:
+            labs.add('sym_mixed')
+        if c.get('rot'):
+            labs.add('sym_rot')
+    if np.linalg.det(V / np.abs(V).max()) < 0:
+        labs.add('lefthanded')
+    return labs
+
+
+_int12 = st.integers(0, 11)
+_int48 = st.integers(0, 47)
+_int6 = st.integers(0, 5)
+_int8 = st.integers(0, 7)
+_int17 = st.integers(1, 7)
+_int4 = st.integers(0, 3)
+
+
+def draw_sym(draw, c):
+    """about 1 cell in 3 gets an exact symmetry image: 2 of 12 the LAMMPS form with axes reversed / vectors reversed (lower
+    triangular, negative diagonal entries; no generic rotation), 1 of 12 the upper-triangular image (axes and vectors in
+    reverse order), 1 of 12 any of the 48 x 6 x 8 images (three quarters of them without a generic rotation)"""
+    j = draw(_int12)
+    if j < 8:
+        return c
+    if j < 10:
+        m, p, k = draw(_int8), 0, draw(_int8)
+        if m == 0 and k == 0:
+            m = draw(_int17)
+        c['rot'] = None
+    elif j == 10:
+        m, p, k = 3 * 8, 3, (draw(_int8) if draw(_int4) == 0 else 0)       # axes (z,y,x), vectors (c,b,a)
+        c['rot'] = None
+    else:
+        m, p, k = draw(_int48), draw(_int6), draw(_int8)
+        if draw(_int4):
+            c['rot'] = None
+    c['sym'] = {'m': m, 'p': p, 's': k}
+    return c
+
+
+def finish_forms(case):
+    """position forms that need exactly representable numbers are kept only where the (final) numbers are"""
+    f = case.get('form')
+    if f:
+        pos0 = np.asarray(case['pos'], dtype=float)
+        pf = f.get('pos')
+        if pf == 'float32' and not _holds_exactly(pos0, 'float32'):
+            f['pos'] = 'array'
+        if pf in ('intarray', 'intlist', 'inttuple') and not _holds_exactly(pos0, 'int64'):
+            f['pos'] = 'array'
+    return case
 
 
 def widths(V):
@@ -140,11 +333,12 @@ def dyadic_systems(draw):
         case['cutoff'] = float(cutoff) * 8.0
         case['scale'] = 8.0
         whole_cut = case['cutoff'] == np.rint(case['cutoff'])
-        case['form'] = {'pos': draw(WHOLE_POSFORMS), 'cutoff': draw(WHOLE_CUTFORMS if whole_cut else CUTFORMS),
-                        'sizes': draw(SIZEFORMS), 'pbc': draw(PBCFORMS)}
+        case['form'] = {'pos': draw(WHOLE_POSFORMS), 'cutoff': draw(WHOLE_CUTFORMS if whole_cut else DYADIC_CUTFORMS),
+                        'sizes': draw(SIZEFORMS), 'pbc': draw(PBCFORMS), 'narrow': draw(_narrow)}
         e = draw(_SCALE2_WHOLE)
     else:
-        case['form'] = {'pos': draw(DYADIC_POSFORMS), 'cutoff': draw(CUTFORMS), 'sizes': draw(SIZEFORMS), 'pbc': draw(PBCFORMS)}
+        case['form'] = {'pos': draw(DYADIC_POSFORMS), 'cutoff': draw(DYADIC_CUTFORMS), 'sizes': draw(SIZEFORMS), 'pbc': draw(PBCFORMS),
+                        'narrow': draw(_narrow)}
         e = draw(_SCALE2)
     if e:
         # overall length scale, a power of two: exact, no rounding decision changes (gens.cell_vects / cell_origin
@@ -153,7 +347,14 @@ def dyadic_systems(draw):
         c['scale'] = f
         case['pos'] = [[x * f for x in p] for p in case['pos']]
         case['cutoff'] = case['cutoff'] * f
-    return case
+    # exact symmetry image: axes permuted / reversed, vectors renamed / reversed (positions follow exactly; a reversed
+    # vector moves the origin to its tip, so every atom stays where it is relative to the region of the cell)
+    draw_sym(draw, c)
+    parts = sym_parts(c)
+    if parts is not None:
+        case['pos'] = sym_cartesian(c, np.array(case['pos'], dtype=float)).tolist()
+        case['pbc'] = [case['pbc'][parts[2][k]] for k in range(3)]
+    return finish_forms(case)
 
 
 @st.composite
@@ -165,8 +366,16 @@ def systems(draw, kind=None):
     k10 = draw(_SCALE10)
     if k10:
         c['scale'] = float('1e%d' % k10)      # V, o below - and everything derived from them - are in the scaled unit
+    if kind == 'near' and draw(_bool):
+        # almost orthogonal / almost equal lengths: tilts of +-d * length, a second length (1 + d) times the first
+        for key, ref in (('xy', 'lx'), ('xz', 'lx'), ('yz', 'ly')):
+            c[key] = draw(_tinysigned) * c[ref]
+        if draw(_bool):
+            c['ly'] = c['lx'] * (1.0 + draw(_tinysigned))
+        c['tiny'] = True
+    draw_sym(draw, c)
     pbc = list(draw(gens.pbcs))
-    V, o = gens.cell_vects(c), gens.cell_origin(c)
+    V, o = cell_vects3(c), cell_origin3(c)
     inv = np.linalg.inv(V)
     w = 1.0 / np.linalg.norm(inv, axis=0)
     cutoff = clamp_cutoff(V, draw(FRAC[kind]) * float(w.min()))
@@ -196,6 +405,49 @@ def systems(draw, kind=None):
         pos = centre + (rng.random((N, 3)) - 0.5) * side
         s = (pos - o) @ inv
         pos = np.clip(s, 0.0, 1.0) @ V + o
+    elif kind == 'near':
+        pts = []
+        for _ in range(draw(_i13)):
+            mode = draw(_nearmode)
+            sb = np.array([draw(_unit) for _ in range(3)], dtype=float)
+            ax = draw(_i02)
+            low = draw(_bool)
+            if mode in ('face', 'facepair'):
+                sb[ax] = draw(_tiny) if low else 1.0 - draw(_tiny)
+            b = sb @ V + o
+            pts.append(b)
+            if mode == 'face':
+                continue
+            if mode == 'facepair':
+                # across the face the atom is next to (a pair only where that axis is periodic)
+                pbc[ax] = pbc[ax] or draw(_bool)
+                u = np.cross(V[(ax + 1) % 3], V[(ax + 2) % 3])
+                u = u / np.linalg.norm(u) * (1.0 if np.dot(u, V[ax]) > 0 else -1.0) * (-1.0 if low else 1.0)
+            else:
+                u = np.array([draw(_sym) for _ in range(3)], dtype=float)
+                if not u.any():
+                    u = np.array([1.0, 0.0, 0.0])
+                u = u / np.linalg.norm(u)
+            d = draw(_tiny)
+            dist = cutoff * d if mode == 'coin' else cutoff * (1.0 + d) if draw(_bool) else cutoff * (1.0 - d)
+            q = None
+            for sgn in (1.0, -1.0):
+                t = b + sgn * dist * u
+                st_ = (t - o) @ inv
+                if np.all(st_ >= 0.0) and np.all(st_ <= 1.0):
+                    q = t                                     # inside as it is: no further rounding
+                    break
+                wr = np.array([st_[k] - np.floor(st_[k]) if pbc[k] else st_[k] for k in range(3)])
+                if np.all(wr >= 0.0) and np.all(wr <= 1.0):
+                    q = t - np.rint(st_ - wr) @ V             # moved by whole cell vectors through periodic faces
+                    sq = (q - o) @ inv
+                    if not (np.all(sq >= 0.0) and np.all(sq <= 1.0)):
+                        q = np.clip(sq, 0.0, 1.0) @ V + o
+                    break
+            if q is None:
+                q = np.clip(st_, 0.0, 1.0) @ V + o
+            pts.append(q)
+        pos = np.array(pts)
     else:
         N = draw(NATOMS[kind])
         coord = _facecoord if kind == 'faces' else _unit
@@ -225,7 +477,8 @@ def systems(draw, kind=None):
     case['pbc'] = [bool(p) for p in pbc]
     case['cutoff'] = cutoff
     case['pos'] = np.asarray(pos, dtype=float).tolist()
-    case['form'] = {'pos': draw(POSFORMS), 'cutoff': draw(CUTFORMS), 'sizes': draw(SIZEFORMS), 'pbc': draw(PBCFORMS)}
+    case['form'] = {'pos': draw(POSFORMS), 'cutoff': draw(GENERIC_CUTFORMS), 'sizes': draw(SIZEFORMS), 'pbc': draw(PBCFORMS),
+                    'narrow': draw(_narrow)}
     return case
 
 
